@@ -1359,7 +1359,7 @@ def comprehension(sx, node, st, kind):
                 x = sx.fresh(setv.ty.elem, "member", s)
                 s.frames.append({gen.target.id: x})
                 saved_spec = sx.spec_mode
-                sx.spec_mode += 1
+                sx.spec_mode += 1; sx.code_comp += 1
                 try:
                     hyp = [z3.Select(setv.term, x.term)] + [sx.truthy(sx.ev1(c, s), s) for c in gen.ifs]
                     s2 = s.fork()
@@ -1369,7 +1369,7 @@ def comprehension(sx, node, st, kind):
                     elt = sx.deref(sx.lift(elt) if isinstance(elt, Conc) else elt, s2)
                     ec = sx.str_class(elt, s2) if isinstance(elt.ty, V._Str) else None
                 finally:
-                    sx.spec_mode = saved_spec
+                    sx.spec_mode = saved_spec; sx.code_comp -= 1
                     s.frames.pop()
                 if isinstance(elt, (Ref, Func, Conc)) or elt.ty is None:
                     raise Unsupported("comprehension element %r" % (elt,), node)
@@ -1400,12 +1400,12 @@ def comprehension(sx, node, st, kind):
                         x = sx.fresh(sv.ty, "item", s)
                         s.frames.append({gen.target.id: x})
                         saved_spec = sx.spec_mode
-                        sx.spec_mode += 1
+                        sx.spec_mode += 1; sx.code_comp += 1
                         try:
                             elt = sx.ev1(node.elt, s)
                             elt = sx.deref(sx.lift(elt) if isinstance(elt, Conc) else elt, s)
                         finally:
-                            sx.spec_mode = saved_spec
+                            sx.spec_mode = saved_spec; sx.code_comp -= 1
                             s.frames.pop()
                         if isinstance(elt, Val) and not isinstance(elt, (Ref, Func, Conc)) and elt.ty is not None:
                             rt = V.List(elt.ty)
@@ -1424,7 +1424,7 @@ def comprehension(sx, node, st, kind):
         s.frames.append({})
         try:
             saved_spec = sx.spec_mode
-            sx.spec_mode += 1  # element-level partiality is reported by the registry hook below
+            sx.spec_mode += 1; sx.code_comp += 1  # element-level partiality is reported by the registry hook below
             ao = sx.assign(gen.target, Val(t.elem, t.at(src.term, i)), s)
             if len(ao) != 1 or ao[0].kind != "normal":
                 raise Unsupported("comprehension target forks", node)
@@ -1433,7 +1433,7 @@ def comprehension(sx, node, st, kind):
             elt = sx.ev1(node.elt, s)
             elt = sx.deref(sx.lift(elt) if isinstance(elt, Conc) else elt, s)
         finally:
-            sx.spec_mode = saved_spec
+            sx.spec_mode = saved_spec; sx.code_comp -= 1
             s.frames.pop()
         sx.reg.comprehension_partiality(sx, node, src, i, s)
         n = t.n(src.term)
@@ -1529,7 +1529,7 @@ def any_all_comprehension(sx, node, st):
     i = z3.Int(fresh_name("qi"))
     s.frames.append({})
     saved = sx.spec_mode
-    sx.spec_mode += 1
+    sx.spec_mode += 1; sx.code_comp += 1
     try:
         ao = sx.assign(gen.target, Val(t.elem, t.at(payload.term, i)), s)
         if len(ao) != 1 or ao[0].kind != "normal":
@@ -1537,7 +1537,7 @@ def any_all_comprehension(sx, node, st):
         conds = [sx.truthy(sx.ev1(c, s), s) for c in gen.ifs]
         body = sx.truthy(sx.ev1(comp.elt, s), s)
     finally:
-        sx.spec_mode = saved
+        sx.spec_mode = saved; sx.code_comp -= 1
         s.frames.pop()
     rng = z3.And(i >= 0, i < t.n(payload.term), *conds)
     q = z3.ForAll([i], z3.Implies(rng, body)) if is_all else z3.Exists([i], z3.And(rng, body))
